@@ -69,14 +69,16 @@ def main():
         ok_all = True
         for t in touched:
             c = "go test -vet=off -count=1 -timeout 20m ./%s" % t
-            rc, o = sh(c, cwd=wt)
+            # private network namespace: other sessions' test processes hold the suite's fixed ports
+            ns = lambda x: "unshare -n sh -c 'ip link set lo up; %s'" % x.replace("'", "'\\''")
+            rc, o = sh(ns(c), cwd=wt)
             fails = sorted(set(re.findall(r"^--- FAIL: (\S+)", o, re.M)))
             if rc != 0:
                 base = json.load(open("/root/.vp/BASELINE.json"))
                 stable = {s.split("::")[1] for s in base["stable_pass"]}
                 bad = [f for f in fails if f in stable]
                 if bad:
-                    rc2, o2 = sh(c + " -run '^(%s)$'" % "|".join(bad), cwd=wt)
+                    rc2, o2 = sh(ns(c + " -run '^(%s)$'" % "|".join(bad)), cwd=wt)
                     bad = sorted(set(re.findall(r"^--- FAIL: (\S+)", o2, re.M))) if rc2 != 0 else []
                 meta["ran"].append({"cmd": c, "rc": rc, "failed": fails, "stable_tests_failing": bad})
                 if bad:
